@@ -219,7 +219,7 @@ pub fn cases(tier: Tier) -> Vec<CCase> {
         ("(0x7fffffff >= -1) ? 2 : 3", 2), ("(1 << 9) >> 8", 2), ("(3 << 8 | 0x20) >> 8", 3), ("(1 << 10) / 8", 128), ("(1 << 8) > 0", 1), ("(1 << 12) ? 5 : 6", 5), ("!(1 << 8)", 0),
         ("(1 << 15) >> 15", 1), ("(256 * 255) >> 8", 255), ("65535 / 256", 255), ("(1 << 16) >> 16", 1), ("(1 << 30) >> 29", 2), ("0x10000 > 1", 1), ("0x10000 == 0", 0), ("!0x10000", 0),
         ("0x10000 ? 1 : 2", 1), ("0x10000 && 1", 1), ("0 || 0x10000", 1), ("(0x12345 >> 8) & 0xff", 0x23), ("0x12345 / 0x100", 0x123), ("(2 << 14) == 32768", 1), ("-32768 < 32767", 1), ("40000 > 30000", 1),
-        ("2 || 0", 1), ("5 || 0", 1), ("0 || 5", 1), ("5 && 3", 1), ("(2 || 0) * 3", 3), ("!5", 0), ("!!5", 1), ("-(1 << 8) < 0", 1), ("~0 < 0", 1), ("(~0) >> 31", -1),
+        ("2 || 0", 1), ("5 || 0", 1), ("0 || 5", 1), ("5 && 3", 1), ("(2 || 0) * 3", 3), ("!5", 0), ("!!5", 1), ("-(1 << 8) < 0", 1), ("~0 < 0", 1), ("(~0) >> 31", -1), ("1 ? 0x7eaddead : 5", 0x7eaddead), ("0 ? 5 : 0x7eaddead", 0x7eaddead),
     ] {
         for pos in [Pos::ConstShort, Pos::StmtAssign, Pos::StmtIf] {
             v.push(CCase { pos, e: E::Sizeof(format!("__TEXT__{}__DECL__", t), val), text: Some(t.to_string()) });
@@ -233,6 +233,8 @@ pub fn cases(tier: Tier) -> Vec<CCase> {
         ("short sa3[3];", "sa3", 6),
         ("char *p1;", "p1", 2),
         ("const char t4[4] = {1, 2, 3, 4};", "t4", 4),
+        ("char a5[5];", "a5[0]", 1),
+        ("short sa3[3];", "sa3[1]", 2),
         ("", "char", 1),
         ("", "short", 2),
         ("", "int", 2),
